@@ -109,6 +109,9 @@ class CBase58BitcoinAddress(bitcoin.base58.CBase58Data, CBitcoinAddress):
     def from_bytes(cls, data, nVersion):
         self = super(CBase58BitcoinAddress, cls).from_bytes(data, nVersion)
 
+        if len(self) != 20:
+            raise CBitcoinAddressError('address payload must be a 20-byte hash; got %d bytes' % len(self))
+
         if nVersion == bitcoin.params.BASE58_PREFIXES['SCRIPT_ADDR']:
             self.__class__ = P2SHBitcoinAddress
 
